@@ -1,3 +1,7 @@
+import collections
+import os
+import re
+
 import vlib
 
 META = {
@@ -6,14 +10,69 @@ META = {
     "technique": "Coq proof: per-macro model of lib.rs with explicit checked-operator primitives and a build-profile parameter; scalar lemmas (wrapping add, rotate, shift-or rotate, mask/shift swap by a finite bit-position sweep) lifted lane-wise; differential correspondence impl = model = spec for every public method in debug and release builds",
     "level_text": "Machine-checked theorems (Props/C19.v) about the model of every public method of u32x4, u64x4, u128x1, u128x2, u32x4x4: for all operands in the stated domain and both build profiles the model returns normally and equals the independent scalar lane-wise specification. Implementation = model (outcome ok/panic and every lane, also outside the domain) and implementation = spec (inside the domain) are checked on generated cases in a debug (overflow checks, debug assertions) and a release build. Any combination of overflow-checks / debug-assertions: C19_two_switch_reduction / _diagonal / _transfer, C19_model_eq_spec_any_switches, C19_total_any_switches (no method consults both switches, so the four combinations reduce method by method to the two modelled profiles; the outside-domain behaviours are pinned per switch: C19_outside_*_by_overflow_checks / _by_debug_assertions).",
     "level_note": "Trusted: Coq kernel+VM; the scalar spec Spec/NullLanes.v (anchored by Examples); hand-written model tied on generated cases only; harness. One switch profile := Debug | Release drives both overflow checks and debug assertions (the two cargo profiles); release + overflow-checks and dev without them are not separate cases of the model. No axioms.",
-    "rule": "cases = (type, method, self lanes, second operand / slice, scalar argument) for all 71 (type, method) pairs: fixed patterns (zero, all-ones, byte-index, alternating), walking-one over every bit of the vector (exhaustive basis), walking-zero, carry chains (MAX+1 per lane, single carrying lane, longest chain ending at each bit), seeded random; rotation amounts 0..bits and beyond u32; every lane index plus out-of-range ones; slices of wrong length. distinct = distinct (type, method, a, b, i); non-trivial = some operand word or the scalar argument non-zero. Outcome (ok|panic) and all lanes compared with the model on every case and with the spec on every in-domain case inside coqc.",
+    "rule": "cases = (type, method, self lanes, second operand / slice, scalar argument) for all 71 (type, method) pairs: fixed patterns (zero, all-ones, byte-index, alternating), walking-one over every bit of the vector (exhaustive basis), walking-zero, carry chains (MAX+1 per lane, single carrying lane, longest chain ending at each bit), seeded random; rotation amounts 0..bits and beyond u32; every lane index plus out-of-range ones (n, n+1, 7, 256, 257, 2^32-1; for the usize indices of u32x4/u64x4 also 2^32, 2^32+1, 2^63+2, which a narrowing cast would fold back into range; for the u32 indices 2^16, 2^31); slices of wrong length; the constructed value of every type is read back through an explicit Clone::clone. distinct = distinct (type, method, a, b, i); non-trivial = some operand word or the scalar argument non-zero. Outcome (ok|panic) and all lanes compared with the model on every case and with the spec on every in-domain case inside coqc. Source scan: the public surface of ppv-null/src/lib.rs (pub fn, impl .. for, instantiations of the defining macros, other pub items) is compared with the pinned list; an ADDED item is a reported problem (it would be outside the model and the runs).",
     "assumptions": ["little-endian host is irrelevant here (no byte views in ppv-null)",
                     "the two modelled build profiles are: overflow checks + debug assertions both on (dev), both off (release); the harness refuses to run in a mixed configuration"],
 }
 
 
+# The public surface of ppv-null the model (Model/PpvNull.v, C19_surface) and the harness cover, as an order-independent
+# fingerprint of utils-simd/ppv-null/src/lib.rs: every `pub fn`, every `impl Trait for Type` (inside the defining macros the
+# type is a macro variable), every instantiation of the defining macros, every other `pub` item. A method that is REMOVED or
+# renamed breaks the harness build; one that is ADDED compiles silently and would be outside every theorem and every run:
+# additions are reported.
+SURFACE = ["define_vec1!(u128x1,u128)", "define_vec2!(u128x2,u128)", "define_vec4!(u32x4,u32)", "define_vec4!(u64x4,u64)",
+           "impl $trait for $vec", "impl AddAssign for $X1", "impl AddAssign for $X2", "impl AddAssign for $X4",
+           "impl AddAssign for u32x4x4", "impl BitAnd for $X1", "impl BitAnd for $X2", "impl BitOr for $X2", "impl BitXor for $X1",
+           "impl BitXorAssign for $X1", "impl BitXorAssign for $X2", "impl BitXorAssign for $X4", "impl BitXorAssign for u32x4x4",
+           "impl Not for $X1", "impl Not for $X2", "impl RotateWordsRight for $X4", "impl RotateWordsRight for u32x4x4",
+           "impl SplatRotateRight for $X4", "impl SplatRotateRight for u32x4x4", "pub fn andnot", "pub fn andnot", "pub fn extract",
+           "pub fn extract", "pub fn extract", "pub fn from", "pub fn from_slice_unaligned", "pub fn into_inner", "pub fn into_parts",
+           "pub fn load", "pub fn load", "pub fn new", "pub fn new", "pub fn new", "pub fn replace", "pub fn rotate_right",
+           "pub fn rotate_right", "pub fn rotate_right", "pub fn splat", "pub fn splat", "pub fn swap1", "pub fn swap16", "pub fn swap2",
+           "pub fn swap32", "pub fn swap4", "pub fn swap64", "pub fn swap8", "pub fn write_to_slice_unaligned", "pub fn xor_store",
+           "pub fn xor_store", "pub struct $X1", "pub struct $X2", "pub struct $X4", "pub struct u32x4x4",
+           "zipmap_impl!($X4,$word,Add,add,wrapping_add)", "zipmap_impl!($X4,$word,BitAnd,bitand)", "zipmap_impl!($X4,$word,BitOr,bitor)",
+           "zipmap_impl!($X4,$word,BitXor,bitxor)", "zipmap_impl!($vec,$word,$trait,$fn,$fn)", "zipmap_impl!(u32x4x4,u32x4,Add,add)",
+           "zipmap_impl!(u32x4x4,u32x4,BitAnd,bitand)", "zipmap_impl!(u32x4x4,u32x4,BitOr,bitor)", "zipmap_impl!(u32x4x4,u32x4,BitXor,bitxor)"]
+
+
+def _surface(path):
+    s = open(path).read()
+    s = re.sub(r"//[^\n]*", "", s)
+    s = re.sub(r"/\*.*?\*/", "", s, flags=re.S)
+    items = []
+    for m in re.finditer(r"\bpub\s+(?:const\s+)?(?:unsafe\s+)?fn\s+(\w+)", s):
+        items.append("pub fn " + m.group(1))
+    for m in re.finditer(r"\bimpl(?:\s*<[^>{]*>)?\s+([\w:$]+(?:<[^>{]*>)?)\s+for\s+(\$?\w+)", s):
+        items.append("impl %s for %s" % (re.sub(r"\s+", "", m.group(1)), m.group(2)))
+    for m in re.finditer(r"\b(define_\w+|zipmap_\w+|impl_\w+)!\s*\(([^)]*)\)", s):
+        items.append("%s!(%s)" % (m.group(1), re.sub(r"\s+", "", m.group(2))))
+    for m in re.finditer(r"\bpub\s+(struct|enum|trait|type|const|static|mod|use)\s+(\$?\w+)", s):
+        items.append("pub %s %s" % m.groups())
+    return sorted(items)
+
+
+def _surface_stage(ctx):
+    path = os.path.join(vlib.REPO, "utils-simd", "ppv-null", "src", "lib.rs")
+    have = collections.Counter(_surface(path))
+    want = collections.Counter(SURFACE)
+    added = sorted((have - want).elements())
+    removed = sorted((want - have).elements())
+    ctx.cov["public_surface"] = {"file": "utils-simd/ppv-null/src/lib.rs", "items": sum(have.values()), "pinned": sum(want.values()),
+                                 "added": added, "removed": removed}
+    if removed:
+        ctx.log("ppv-null surface: items no longer present (the harness build decides whether that matters): %s" % removed)
+    if added:
+        ctx.violation({"kind": "public-surface-changed", "added": added, "removed": removed,
+                       "note": "utils-simd/ppv-null/src/lib.rs has public items / impls that Model/PpvNull.v (C19_surface: 71 (type, method) "
+                               "pairs) and the harness do not know: they are outside every theorem and every run of this property"},
+                      no_input=True)
+
+
 def run(ctx):
     vlib.standard_proof_stage(ctx)
+    _surface_stage(ctx)
     for profile in ("debug", "release"):
         binary, log = vlib.cargo_build(profile=profile, bin_name="h_ppvnull")
         if binary is None:
